@@ -3,7 +3,7 @@
 Model: coq/Model/Writer.v; spec: coq/Spec/WireSpec.v; theorems: coq/Props/C02.v."""
 import re, ast, itertools, threading, collections
 ID = 'C02'
-COQ_ROOTS = ['Props/C02.v', 'GenProps/Framing_consts.v']
+COQ_ROOTS = ['Props/C02.v', 'GenProps/Framing_consts.v', 'GenProps/Writer_consts.v']
 RULE = ('A case is (base, message list, readiness answers, transport answer script). Messages from a pool with ASCII, '
         '2/3/4-octet characters (character count != octet count), framing look-alikes ("\\n#5\\n", "\\n##\\n", "]]>"), '
         'long and empty ones; scripts: all-1-octet writes, random short writes, counts larger than what is left, '
